@@ -374,8 +374,9 @@ func renderTasks(ts []T) string {
 	return b.String()
 }
 
-// Render returns the project files of a table.
-func (tb *Table) Render() map[string]string {
+// renderRoot renders the root Taskfile with extra task definitions appended to
+// its tasks section.
+func (tb *Table) renderRoot(extraTasks string) string {
 	var b strings.Builder
 	b.WriteString("version: '3'\nsilent: true\n")
 	inc := ""
@@ -385,11 +386,18 @@ func (tb *Table) Render() map[string]string {
 	if tb.IncludesFirst {
 		b.WriteString(inc)
 		b.WriteString(renderTasks(tb.Root))
+		b.WriteString(extraTasks)
 	} else {
 		b.WriteString(renderTasks(tb.Root))
+		b.WriteString(extraTasks)
 		b.WriteString(inc)
 	}
-	files := map[string]string{"Taskfile.yml": b.String()}
+	return b.String()
+}
+
+// Render returns the project files of a table.
+func (tb *Table) Render() map[string]string {
+	files := map[string]string{"Taskfile.yml": tb.renderRoot("")}
 	if tb.NS != "" {
 		files["inc.yml"] = "version: '3'\n" + renderTasks(tb.Inc)
 	}
